@@ -244,6 +244,41 @@ def run(eng: Engine, ck: Check):
                     cmp_ok = True
             if it_ok and cmp_ok and not others:
                 stale.append(cnd)
+                continue
+            # second form of the same decision: the identity of every current transfer is collected ONCE into a set, a stored record is
+            # stale when its identity is not in it.  "Identity" has to be what Transfer.__eq__ compares (remote_path, username,
+            # direction): the same fields, in the same order on both sides.  A record that is not a Transfer at all may be dropped too
+            # (it equals no transfer).
+            IDENT = {'remote_path', 'username', 'direction'}
+
+            def ident_tuple(e_: ast.AST):
+                """(variable, [field, ..]) for `(v.a, v.b, v.c)`"""
+                if isinstance(e_, ast.Tuple) and e_.elts and all(isinstance(x_, ast.Attribute) and isinstance(x_.value, ast.Name) for x_ in e_.elts) and \
+                        len({x_.value.id for x_ in e_.elts}) == 1:
+                    return e_.elts[0].value.id, [x_.attr for x_ in e_.elts]
+                return None
+
+            def stale_by_set(e_: ast.AST, pol_: bool) -> bool:
+                a_ = cmp_atom(e_)
+                if not (a_ and a_[0] == 'in' and not pol_):
+                    return False
+                lhs = ident_tuple(a_[1])
+                st_ = expand_aliases(w, a_[2])
+                if lhs is None or not isinstance(st_, ast.SetComp) or len(st_.generators) != 1 or st_.generators[0].ifs or unparse(st_.generators[0].iter) != w.params[1]:
+                    return False
+                rhs = ident_tuple(st_.elt)
+                return rhs is not None and rhs[0] == unparse(st_.generators[0].target) and rhs[1] == lhs[1] and set(lhs[1]) == IDENT and len(lhs[1]) == 3
+            atoms = []
+            for e, pol in cnd['conds']:
+                if pol and isinstance(e, ast.BoolOp) and isinstance(e.op, ast.Or):
+                    atoms.append([(x_, True) for x_ in e.values])
+                else:
+                    atoms.append([(e, pol)])
+            by_set = it_ok and len(atoms) == 1 and any(stale_by_set(*split_conj(x_, p_)[0]) if len(split_conj(x_, p_)) == 1 else False for x_, p_ in atoms[0]) and all(
+                (len(split_conj(x_, p_)) == 1 and stale_by_set(*split_conj(x_, p_)[0])) or
+                (isinstance(x_, ast.UnaryOp) and isinstance(x_.op, ast.Not) and call_name(x_.operand) == 'isinstance' and 'Transfer' in unparse(x_.operand)) for x_, p_ in atoms[0])
+            if by_set:
+                stale.append(cnd)
     ck.ob('R-C17-WRITE', w, w.node, 'write() deletes every stored record that equals no current transfer (removed transfers are gone)', bool(pops) and len(stale) == 1, '',
           construct='write drops stale')
     stop = eng.func('client.py', 'SoulSeekClient.stop')
